@@ -11,6 +11,7 @@ if n != want:
     print("snippet occurs %d times (want %d)" % (n, want)); sys.exit(2)
 env = dict(os.environ, GOFLAGS='-mod=mod', GOPROXY='off', GOSUMDB='off', GOTOOLCHAIN='local')
 env.pop('GOWORK', None)
+env['GZV_EVIDENCE_DIR'] = '/tmp/gzv-evidence-scratch'
 killed = False
 try:
     open(path, 'w').write(src.replace(old, new))
